@@ -2,7 +2,8 @@ P = {
     "gens": ["C05scf"],
     "theorems": ["C05_retained", "C05_retained_epidemic", "C05_direct", "C05_epidemic", "C05_restart",
                  "C05_restart_keeps_store", "C05_failure_race", "C05_failure_race_outcome",
-                 "C05_failure_race_unlocked_refuted", "C05_alive_timestamped", "C05_alive_zero_time"],
+                 "C05_failure_race_unlocked_refuted", "C05_alive_timestamped", "C05_alive_zero_time",
+                 "C05_unsupported_block_refusal", "C05_unsupported_block_removal"],
     "rule": "a real routing.Core on a fresh store directory with scripted mock convergence senders (all sends of one "
             "forwarding attempt are released together) is driven through event histories over {submit, receive, receive "
             "again, peer up with an outcome script (ok / fail / fail-first / pseudo-random), peer down, pending tick, clean "
@@ -12,24 +13,44 @@ P = {
             "clock-less submit, receive, duplicate, two peers, both ticks, restart), epidemic up to depth 3 (quick: a third "
             "of the deepest level, rotating with the seed; thorough: depth 4 / 3); random histories of length 10..40 with "
             "same-millisecond groups, zero-time bundles, expired, hop-limited, unknown-block, foreign-source and locally "
-            "addressed bundles. After every event: per-peer send log, and known / pending / sent list of every bundle handed "
+            "addressed bundles, a third of the received ones with 1-4 blocks of prescribed position and flags; received "
+            "bundles whose block array has every adjacent pair (unknown / known type x the 16 combinations of replicate, "
+            "report, delete-bundle, remove-block, followed by unknown / known / payload x 16; quick: half of the pairs "
+            "beginning with a known block), 24 per history with appearance of the destination, retry, restart (rule: "
+            "refused for cause only when a block of an unknown type carries delete-bundle, otherwise stored and pending "
+            "until sent); histories under schedule control (one at a time; mock senders hold the failure report of a "
+            "failed send back between its read and its write until forward's closing store update has read the item - "
+            "the report is then let go and the update waits for the report's write - or until the handler has returned, "
+            "or for 50 ms when forward waits for its reports; schedule points of the forwarding goroutine from the "
+            "Core's own log through a logrus hook): a report still held when forward is past its barrier / the handler "
+            "returns has escaped the (atomic) handler = mismatch, the store at handler return is compared with the store "
+            "after everything has run, the property is judged on the latter (failed peer still in the sent list, bundle "
+            "not pending); histories with one failing part-file write (the directory of the part files is away for the "
+            "n-th Push of the history). After every event: per-peer send log, and known / pending / sent list of every bundle handed "
             "in. Each history is replayed through Model.scf_step (trace inclusion, store status compared) and judged by the "
             "property checker on the log alone. distinct = distinct case bodies",
     "assumptions": ["bundle IDs are distinct (a Submit whose ID is already stored is not a step of the model; the volatile "
                     "IdKeeper is C14's finding idkeeper.restart.epoch-seq0)",
                     "event handlers are atomic (the cron goroutine does not overlap the handler); only the failure reports of "
                     "one forwarding attempt are modelled as concurrent",
-                    "orderly restart (process kill is C08)"],
+                    "orderly restart (process kill is C08)",
+                    "storage faults are outside C05's quantifier; the single failing part-file write is a robustness "
+                    "extension (the code survives it because every handler syncs the descriptor more than once)"],
     "trusted_base": ["the routing algorithms' selection is validated per attempt (direct peers / exactly the fresh peers for "
                      "epidemic / a duplicate-free subset of the connected peers otherwise), not predicted",
                      "routing metadata bundles the algorithms create themselves (prophet) are not tracked",
                      "clock: lifetimes are 24 h or long expired, a history runs for < 20 s (slower ones are dropped and counted)",
                      "pkg/storage/verif_export_scf.go sets badger's memtable size (store tuning only); the store "
                      "directory is on /dev/shm when available",
-                     "harness/corelib.go mock convergence senders; pkg/routing/verif_export.go synchronous drivers"],
+                     "harness/corelib.go mock convergence senders; pkg/routing/verif_export.go synchronous drivers",
+                     "harness/scf_sched.go: schedule points are recognised by the texts of the Core's log messages "
+                     "(a changed text makes the scenario powerless, not alarming; the tags sched-* show what was reached); "
+                     "the sender goroutine of a failed send is recognised by its goroutine id"],
     "level_text": "Retention, direct delivery on appearance, the epidemic offer and their survival of restarts are proved by "
                   "invariant over all histories, oracles and algorithms (selection abstracted to a validated subset); the "
-                  "failure-report race is proved for both locked orders and refuted for the unlocked sub-step model. The Go "
+                  "failure-report race is proved for both locked orders and refuted for the unlocked sub-step model; the block loop "
+                  "of receive (in-place removal under a descending index) is proved to refuse exactly the bundles with an "
+                  "unsupported block demanding deletion, for every block array. The Go "
                   "code is tied by trace inclusion of every generated history and by the property checker on the log.",
     "level_note": "Proof is about the model. Partial for real goroutine scheduling (atomic handlers; the mutex is assumed to "
                   "serialise the read-modify-write) and for OS crashes (orderly restart only). UpdateBundleAge's factor "
